@@ -6,6 +6,7 @@ package eng
 import (
 	"fmt"
 	"os"
+	"runtime/debug"
 	"sort"
 	"strings"
 
@@ -47,6 +48,9 @@ func Open(name string, memKB int, file bool) (e *Engine, panicMsg string) {
 		if x := recover(); x != nil {
 			e = nil
 			panicMsg = fmt.Sprint(x)
+			if os.Getenv("VERIF_STACK") != "" {
+				fmt.Fprintf(os.Stderr, "PANIC in Open: %v\n%s\n", x, debug.Stack())
+			}
 		}
 	}()
 	db := samehada.NewSamehadaDB(name, memKB)
